@@ -1,9 +1,11 @@
 (* C09 — NFA inclusion is exact for the antichain algorithm and the congruence algorithm
    (depth-first / breadth-first), and the three agree.  Nothing but statements closed by [exact];
-   proofs in NfaProofs.v. *)
+   proofs in NfaProofs.v (verdict function, gate) and NfaAcProofs.v (the antichain algorithm with
+   its worklist and memo tables). *)
 From Coq Require Import List NArith Bool.
-From V Require Import Sem Prod Incl TrimDefs Lang NfaDefs NfaProofs.
+From V Require Import Sem Prod Incl TrimDefs Lang NfaDefs NfaProofs NfaAcDefs NfaAcProofs.
 
+(* the verdict function of the three selections *)
 Theorem C09_exact : forall v A B, wincl_model v A B = true <-> wlincl A B.
 Proof. exact wincl_model_exact. Qed.
 Print Assumptions C09_exact.
@@ -16,6 +18,31 @@ Proof. exact wincl_model_is_dec. Qed.
 Theorem C09_gate_verdict : forall A B v, gate_verdict A B v = true <-> (v = true <-> wlincl A B).
 Proof. exact gate_verdict_spec. Qed.
 Print Assumptions C09_gate_verdict.
+
+(* (A1) the antichain algorithm as coded, with identity preorder, ordered worklist, antichain
+   refinement and the memo tables subsetMap_/subsetNotMap_ *)
+(* the memo tables only ever hold true comparison results *)
+Theorem C09_memo_sound_init : forall A B, memo_sound (st_memo (ac_init false A B)).
+Proof. exact memo_sound_init. Qed.
+Theorem C09_memo_sound_step : forall A B st p P, memo_sound (st_memo st) -> memo_sound (st_memo (make_post false A B st p P)).
+Proof. exact memo_sound_step. Qed.
+(* hence the run is the run of the memo-free algorithm *)
+Theorem C09_ac_erase : forall A B, ac_run false A B = loop0 (ac_fuel A B) A B (init0 A B).
+Proof. exact ac_run_eq. Qed.
+(* any answer, with any fuel, is the truth; the structural fuel always suffices *)
+Theorem C09_ac_partial : forall A B fuel b, ac_loop false fuel A B (ac_init false A B) = Some b -> (b = true <-> wlincl A B).
+Proof. exact ac_partial. Qed.
+Theorem C09_ac_terminates : forall A B, ac_run false A B <> None.
+Proof. exact ac_terminates. Qed.
+Print Assumptions C09_ac_terminates.
+Theorem C09_ac_refines : forall A B, ac_model A B = wincl_dec A B.
+Proof. exact ac_refines. Qed.
+Print Assumptions C09_ac_refines.
+(* as called through CheckInclusion (operands sanitized first) it is exact and agrees with the other selections *)
+Theorem C09_ac_incl_exact : forall A B, ac_incl_model A B = true <-> wlincl A B.
+Proof. exact ac_incl_model_spec. Qed.
+Print Assumptions C09_ac_incl_exact.
+
 (* operand preparation of the congruence selections after the repair of D6: on operands with
    disjoint state sets inclusion is equivalence of the union with the bigger automaton *)
 Theorem C09_congr_operands_ok : forall A B, disjoint (nstates A) (nstates B) ->
@@ -25,3 +52,12 @@ Print Assumptions C09_congr_operands_ok.
 (* the sanitizing step (RemoveUselessStates) does not change the answer *)
 Theorem C09_sanitize_lang : forall A w, waccepts (nuseless A) w <-> waccepts A w.
 Proof. exact nuseless_lang. Qed.
+
+(* the code as it was before the fix: commits: faithful models violate the property *)
+(* D5: memo filling that records the converse of a failed comparison as positive *)
+Theorem C09_memo_refuted : exists A B, ac_run true A B = Some true /\ wincl_dec A B = false.
+Proof. exact memo_refuted. Qed.
+Print Assumptions C09_memo_refuted.
+(* D6: union automaton built from the unsanitized operands *)
+Theorem C09_congr_operands_refuted : exists A B, wincl_congr_old A B = false /\ wincl_dec A B = true.
+Proof. exact congr_operands_refuted. Qed.
